@@ -61,7 +61,9 @@ def make_query(
     )
     values: List[QueryValue] = [module]
     if qualname is not None:
-        raw_query += " AND qualname LIKE ? || '%'"
+        # instr() = 1 is a case-sensitive prefix test; LIKE would also treat
+        # `_` and `%` in the prefix as wildcards and ignore ASCII case.
+        raw_query += " AND instr(qualname, ?) = 1"
         values.append(qualname)
     raw_query += """
     GROUP BY
